@@ -1,3 +1,5 @@
 import MV.Basic
 import MV.Model.Stream
 import MV.Driver.Stream
+import MV.Model.Graph
+import MV.Driver.Graph
